@@ -18,7 +18,8 @@ if not (ok_pristine and ok_patched and ok_base):
 dst = '/verif/seeded/%s' % name
 os.makedirs(dst, exist_ok=True)
 for f in ('patch.diff', 'demo.py'):
-    shutil.copy(os.path.join(src, f), dst)
+    if os.path.realpath(src) != os.path.realpath(dst):
+        shutil.copy(os.path.join(src, f), dst)
 meta = json.load(open(os.path.join(src, 'meta.json')))
 meta['property'] = prop
 meta['confirmed'] = {'demo_pristine': 'PASS (rc 0)', 'demo_patched': 'FAIL (rc 1)',
